@@ -183,11 +183,11 @@ var (
 		// relative references whose fragment (or query) holds a colon; data URIs whose media type grows when lower-cased; upper-case data / base64
 		"#fn:1", "notes.html#sec:2", "chart.png#xywh=percent:5,5,90,90", "p?t=1:2", "a#b:c/d", "data:\u023a\u023a\u023a\u023a;base64,a b", "data:\u0130\u023e;base64,a\nb", "DATA:image/png;BASE64,a\nb", "data:IMAGE/PNG;Base64,AA AA",
 		"https:tracker.example.net/pixel.gif", "http:a.b/c", "mailto:x"}
-	RelPool    = []string{"external\u00a0nofollow", "noopener\vnofollow", "nofollow\u0085noreferrer", "noreferrer\u2003x", "", "nofollow", "noopener", "noreferrer", "nofollow noopener", "xnofollowx", "NOFOLLOW", "author", "a b c", "noopenerx", "no follow",
+	RelPool    = []string{"help ", "help\t", "author\n", " help", "help  me", "nofollow ", " ", "external\u00a0nofollow", "noopener\vnofollow", "nofollow\u0085noreferrer", "noreferrer\u2003x", "", "nofollow", "noopener", "noreferrer", "nofollow noopener", "xnofollowx", "NOFOLLOW", "author", "a b c", "noopenerx", "no follow",
 		// tokens of which a link type is a proper prefix or suffix, before and after the genuine token
 		"nofollow-sponsored nofollow", "NoFollowed x", "noreferrer/v2 noreferrer", "noopener-strict noopener", "nofollow-x", "xnofollow nofollow", "nofollow nofollow-x", "noreferrer-a noopener-b nofollow-c"}
 	TargetPool = []string{"_blank", "_BLANK", "_self", "", "x", " _blank"}
-	StylePool  = []string{"color: red", "color:red;", "COLOR: RED", "color: red; width: 1px", "width:1px;color:blue;x-prop:y", "color: \\72 ed",
+	StylePool  = []string{"color: red\\3000", "color: red\\2028", "color: red\\a0", "font-family: serif\\00a0;", "color: \\3000", "color: red\\85", "color: a\\2003 b", "color: red\\1680;width: 1px", "color: red\\205f", "color: red", "color:red;", "COLOR: RED", "color: red; width: 1px", "width:1px;color:blue;x-prop:y", "color: \\72 ed",
 		"color: b\\6C ue", "color: \\52 ED", "width: expressi\\6F n(1)", "color: r\\00006Cd", "x-prop: \\A9 x", "color: \\4F range", "color: r\\65 d", "background: url(javascript:alert(1))", "background: url('http://a.b/c.png')", "color: red !important", "color: red ! IMPORTANT ;",
 		"-webkit-color: red", "-moz--webkit-width: 2px", "col-o-or: red", "co-ms-lor: red", "widmso-th: 1px", "-webkit-col-o-or: red", "color-o-: red", "transfor-ms-m: none", "-o-col-tc-or: blue",
 		"font-family: \\1f4a9, serif", "font-family: \\1f4a9\\1f4a9, serif", "color: \\1f600\\1f600", "mso-color: blue", "font-family: 'a b', serif", "font-family: \\110000 x", "color: expression(alert(1))",
